@@ -198,6 +198,18 @@ def run(prop: str, tier_: str) -> int:
                 for k in sorted(set(pin) | set(got)):
                     if pin.get(k) != got.get(k):
                         res.violation(f"api-table:{k}", f"{k}: shipped package says {got.get(k)}, pinned 3.9.0 API table says {pin.get(k)}", {"family": k})
+            # the shipped error codes against the pinned table itself (not only against what the generator makes of it: a generator slip
+            # plus a regenerated errors.py agree with each other)
+            pinned = {}
+            for ln in (common.VERIF / "pins" / "error-codes.txt").read_text().splitlines():
+                parts = ln.split(None, 3)
+                if len(parts) >= 3:
+                    pinned[int(parts[0])] = (parts[1].lower(), parts[2] == "True")
+            live = {int(code): (str(name).lower(), bool(retriable)) for name, code, retriable, _ in ship_dump["errors"]}
+            res.count("error_codes_compared_with_pin", len(pinned))
+            for code in sorted(set(pinned) | set(live)):
+                if pinned.get(code) != live.get(code):
+                    res.violation(f"error-code-table:{code}", f"error code {code}: shipped ErrorCode has {live.get(code)}, the pinned Kafka 3.9.0 table says {pinned.get(code)}", {"code": code})
             nmods = sum(1 for n in ship_dump["modules"] if n.count(".") == 4)
             ncls = sum(len(m.get("classes", {})) for m in ship_dump["modules"].values())
             res.coverage["shipped_modules"] = nmods
